@@ -207,3 +207,37 @@ Theorem C11_radix_base_half_rs_matches_model w N fuel radix b p : 0 < w -> (Z.to
   RadixOut.radix_base_half w radix = Some (b, p) -> ParseGen.radix_base_half w N fuel radix = Done (b, Z.of_nat p).
 Proof. exact (gen_radix_base_half w N fuel radix b p). Qed.
 Print Assumptions C11_radix_base_half_rs_matches_model.
+
+(* ---- tie to the source: the radix OUTPUT code itself - to_radix_le (assert_range! panic, zero, byte copy, dispatch),
+   to_bitwise_digits_le, to_inexact_bitwise_digits_le, to_radix_digits_le, to_radix_be, to_str_radix of src/buint/radix.rs and
+   to_str_radix / to_radix_be / to_radix_le of src/bint/radix.rs - REGENERATED from /repo on every run (Generated/PrintGen.v,
+   tools/rs2v_print.py; vocabulary Model/Imp.v + ImpParse.v + ImpDiv.v + ImpPrint.v: Vec<u8> as list Z, `for` loops) equals the
+   hand-written model these theorems are about: for every digit width 8 <= w <= 248 (bnum: 8, 16, 32, 64), every digit count,
+   every well-formed operand and EVERY radix, with an iteration budget of 2 w (n + 1) + 1.
+   oo_res (Proofs/PrintGenTieD.v): Some (Ret l) <-> Done l, Some Panic <-> Panicked, None <-> NoFuel. ---- *)
+From Bnum.Generated Require Import PrintGen.
+From Bnum.Proofs Require Import PrintGenTie.
+Theorem C11_print_rs_matches_model : forall w n fuel a radix,
+  8 <= w <= 248 -> wf w n a -> (Z.to_nat (2 * w) * S n + 1 <= fuel)%nat ->
+  PrintGen.to_radix_le w (Z.of_nat n) fuel a radix = oo_res (U_to_radix_le w a radix) /\
+  PrintGen.to_radix_be w (Z.of_nat n) fuel a radix = oo_res (U_to_radix_be w a radix) /\
+  PrintGen.to_str_radix w (Z.of_nat n) fuel a radix = oo_res (U_to_str_radix w a radix) /\
+  PrintGen.I_to_radix_le w (Z.of_nat n) fuel a radix = oo_res (I_to_radix_le w a radix) /\
+  PrintGen.I_to_radix_be w (Z.of_nat n) fuel a radix = oo_res (I_to_radix_be w a radix) /\
+  ((0 < n)%nat -> PrintGen.I_to_str_radix w (Z.of_nat n) fuel a radix = oo_res (I_to_str_radix w a radix)).
+Proof. exact print_C11_match_model. Qed.
+Print Assumptions C11_print_rs_matches_model.
+(* the three digit loops on their own (no well-formedness needed: wherever the model's own budget suffices) *)
+Theorem C11_print_loops_rs_match_model : forall w N fuel self,
+  (forall bits out, 0 < bits < w -> self <> [] -> (Z.to_nat w <= fuel)%nat ->
+     to_bitwise_digits_le w self bits = Some out ->
+     PrintGen.to_bitwise_digits_le w N fuel self bits = Done out) /\
+  (forall bits out, 0 < bits < w -> w + bits <= 256 -> (Z.to_nat (2 * w) * S (length self) <= fuel)%nat ->
+     to_inexact_bitwise_digits_le w self bits = Some out ->
+     PrintGen.to_inexact_bitwise_digits_le w N fuel self bits = Done out) /\
+  (forall radix out, 0 < w -> 2 <= radix < 2 ^ 32 -> radix mod B w <> 0 -> self <> [] ->
+     (Z.to_nat w <= fuel)%nat -> (S (Z.to_nat (bits w (length self))) <= fuel)%nat ->
+     to_radix_digits_le w self radix = Some out ->
+     PrintGen.to_radix_digits_le w N fuel self radix = Done out).
+Proof. exact print_C11_loops_match_model. Qed.
+Print Assumptions C11_print_loops_rs_match_model.
